@@ -572,9 +572,11 @@ func (t *trace) mineBlock(cb *wire.MsgTx, newTxs []*wire.MsgTx, incl []*ltx) err
 		if err := t.deliver(tx, blk); err != nil {
 			return err
 		}
+		old := t.L.byHash[tx.TxHash()]
+		fresh := old == nil || old.height < 0
 		lt := t.L.add(tx, blk.Height, false)
 		if lt.alive {
-			t.L.confirm(lt, blk.Height)
+			t.L.confirm(lt, blk.Height, fresh)
 		}
 	}
 	return nil
